@@ -387,6 +387,7 @@ pub fn take() -> String { LOG.with(|l| std::mem::take(&mut *l.borrow_mut())).joi
 #[derive(Debug, PartialEq)]
 pub struct R(pub u32);
 impl Copy for R {}
+impl Default for R { fn default() -> Self { R(0) } }
 impl Clone for R {
     fn clone(&self) -> Self { log(format!(\"clone {}\", self.0)); R(self.0 + 1000) }
     fn clone_from(&mut self, s: &Self) { log(format!(\"clone_from {} {}\", self.0, s.0)); self.0 = s.0 + 2000; }
@@ -509,8 +510,15 @@ def genCloneRunCase (seed idx : Nat) : Case := runGen seed idx do
     | 1 => [{ trait_ := "Copy" }, { trait_ := "Clone" }]
     | 2 | 3 => [{ trait_ := "Clone" }, { trait_ := "Copy" }]
     | _ => [{ trait_ := "Clone" }]
+  -- another trait derived alongside, with helper attributes of its own on the fields (they must not leak into `clone`)
+  let withDefault ← if generic then pure 0 else pickW [(4, 0), (1, 1), (1, 2), (1, 3)]
+  let items := match withDefault with
+    | 1 => items ++ [{ trait_ := "Default" }]
+    | 2 => { trait_ := "Default" } :: items
+    | _ => items
   let args : Args := { items := if withCopy == 3 then items.take 1 else items }
-  let extra : List Attr := if withCopy == 3 then [.deriveEx { items := items.drop 1 }] else []
+  let extra : List Attr := (if withCopy == 3 then [.deriveEx { items := items.drop 1 }] else []) ++
+    (if withDefault == 3 then [.deriveEx { items := [{ trait_ := "Default" }] }] else [])
   let fty : Ty := if generic then tyT else Ty.simple "R"
   let boundAttr : Gen (List Attr) := do
     let rClone : BoundArg := .pred (.ty [] (Ty.simple "R") [.trait false [] (Ty.simple "Clone")])
@@ -528,6 +536,9 @@ def genCloneRunCase (seed idx : Nat) : Case := runGen seed idx do
   let rF (n : Nat) (kind : FieldsKind) : Gen Fields := do
     let fs ← (List.range n).mapM fun i => do
       let attrs ← boundAttr
+      let attrs ← if withDefault != 0 && (← chance 1 2) then
+          pure (attrs ++ [.dflt (.list { value := some (["R", "(", toString (7 + i), ")"], .other) })])
+        else pure attrs
       let ty ← if generic && (← chance 1 3) then pure (Ty.simple "R") else pure fty
       pure ({ attrs, name := if kind == .named then some (["a", "b", "c", "d"].getD i "z") else none, ty } : Field)
     pure { kind, fields := fs }
@@ -540,6 +551,7 @@ def genCloneRunCase (seed idx : Nat) : Case := runGen seed idx do
         let k ← pickW [(2, FieldsKind.unit), (3, .unnamed), (3, .named)]
         let n ← if k == .unit then pure 0 else pickW [(1, 0), (3, 1), (3, 2), (2, 3)]
         let vattrs ← boundAttr
+        let vattrs := if withDefault != 0 && i == 0 then vattrs ++ [.dflt .path] else vattrs
         let fields ← if k == .unit then pure { kind := .unit } else rF n k
         pure ({ attrs := vattrs, name := ["A", "B", "C", "D"].getD i "Z", fields } : Variant)
       pure (Item.enum_ { attrs, name := "X", generics, variants := vs })
@@ -563,7 +575,7 @@ def genCloneRunCase (seed idx : Nat) : Case := runGen seed idx do
     else item
   let generic := generic && usesT
   pure { id := s!"cloneRun/{seed}/{idx}",
-         tags := [s!"enum={isEnum}", s!"copy={withCopy}", s!"generic={generic}"],
+         tags := [s!"enum={isEnum}", s!"copy={withCopy}", s!"generic={generic}", s!"default-alongside={withDefault}"],
          entry := if useDerive then .derive else .attr args, item }
 
 def genImplOf (c : Case) : Option GenImpl :=
